@@ -104,6 +104,12 @@ def pre : List Step :=
    ⟨.benign, "datetime.now().replace().isoformat", .none⟩,
    ⟨.mayRaise, "custom_file_header_path.read_text", .none⟩,
    ⟨.mayRaise, "get_version", .none⟩,
+   ⟨.benign, "modules.items", .none⟩,
+   ⟨.loopBegin, "modules.items()", .none⟩,
+   ⟨.benign, "header.format", .none⟩,
+   ⟨.mayRaise, "<expr>.encode", .none⟩,
+   ⟨.mayRaise, "<expr>.encode", .none⟩,
+   ⟨.loopEnd, "", .none⟩,
    ⟨.benign, "modules.items", .none⟩]
 
 /-- body of the write loop (`for path, (body, filename) in modules.items()`), once per module -/
